@@ -9,12 +9,12 @@ package simrt
 
 import (
 	"fmt"
-	"syscall"
 	"hash/fnv"
 	"runtime/debug"
 	"sort"
 	"strings"
 	"sync"
+	"syscall"
 	"testing/synctest"
 	"time"
 )
@@ -58,22 +58,22 @@ type PanicInfo struct {
 }
 
 type Sched struct {
-	mu        sync.Mutex
-	tasks     []*Task
-	cur       *Task
-	arbiter   bool
-	parked    []*Task
-	strategy  Strategy
-	dec       *Stream // recorded / replayed decisions
-	maporder  *Stream
-	MapMode   int // 0 sorted, 1 reversed, 2 random
-	stopping  bool
-	Mask      []bool // site id -> yield enabled
-	Sites     []SiteInfo
-	StepLimit int64
+	mu          sync.Mutex
+	tasks       []*Task
+	cur         *Task
+	arbiter     bool
+	parked      []*Task
+	strategy    Strategy
+	dec         *Stream // recorded / replayed decisions
+	maporder    *Stream
+	MapMode     int // 0 sorted, 1 reversed, 2 random
+	stopping    bool
+	Mask        []bool // site id -> yield enabled
+	Sites       []SiteInfo
+	StepLimit   int64
 	WallLimitMs int64
-	realStart int64
-	wallTick  int64
+	realStart   int64
+	wallTick    int64
 
 	Steps     int64
 	Switches  int64
